@@ -63,6 +63,8 @@ def intish(t):
     if isinstance(t, tuple) and t:
         if t[0] in ("lin", "mod"):
             return True
+        if t[0] == "call" and t[1] == ("name", "len") and len(t[2]) == 1:
+            return True
         if t[0] == "sym":
             return t[1].startswith("int:")
         if t[0] == "call":
@@ -180,7 +182,7 @@ class Interp:
             v = self.ev(e.operand, st)
             if isinstance(e.op, ast.Not):
                 return self.neg(v)
-            if isinstance(e.op, ast.USub) and is_lin(v):
+            if isinstance(e.op, ast.USub) and (is_lin(v) or intish(v) or (isinstance(v, tuple) and v and v[0] == "call" and v[1] == ("name", "len"))):
                 return scale(v, -1)
             return ("neg", v)
         if isinstance(e, ast.BinOp):
@@ -232,7 +234,14 @@ class Interp:
         if isinstance(e, ast.Call):
             f = self.ev(e.func, st) if not isinstance(e.func, ast.Name) or e.func.id in st.env else ("name", e.func.id)
             args = tuple(self.ev(a, st) for a in e.args)
-            kws = tuple(sorted(((k.arg, self.ev(k.value, st)) for k in e.keywords), key=lambda x: str(x[0])))
+            kwl = []
+            for k in e.keywords:
+                v_ = self.ev(k.value, st)
+                if k.arg is None and isinstance(v_, tuple) and v_ and v_[0] == "dict" and v_[1] and all(isinstance(kk, str) for kk, _ in v_[1]):
+                    kwl.extend(v_[1])       # f(**d) with d a known dict of literal names: the entries are the keywords
+                else:
+                    kwl.append((k.arg, v_))
+            kws = tuple(sorted(kwl, key=lambda x: str(x[0])))
             t = self.call(f, args, kws, e, st)
             if self.log_calls:
                 st.effects.append(("ecall", self.h(t), e))
@@ -316,6 +325,13 @@ class Interp:
                 return ("op", n, a, b)
             c, p = _parts(a)
             p = {k: v % b for k, v in p.items() if v % b}
+            hk = getattr(self, "hook", None)
+            if hk is not None:
+                # a residue known for an atom (hook answers `atom % b`) folds into the constant: (-L) % 4 with L % 4 == r
+                for k in list(p):
+                    r_ = hk(("mod", k, b))
+                    if is_int(r_):
+                        c += p.pop(k) * r_
             red = mk_lin(c % b, p)
             if is_int(red):
                 return red % b
@@ -543,13 +559,29 @@ class Interp:
             if tv is None:
                 tv = known_truth(c, st)      # decided earlier on this path: contradictory branches are infeasible
             if tv is None:
-                # conjunctions / disjunctions are split so that each recorded condition is an atom
-                a = st.fork()
-                record(a, c, True)
-                b = st
-                record(b, c, False)
-                yield from self.seq(list(s.body), a)
-                yield from self.seq(list(s.orelse), b)
+                # conjunctions / disjunctions are split so that each recorded condition is an atom: a false conjunction (true
+                # disjunction) gives one path per short-circuit outcome
+                alts_t, alts_f = outcomes(c, True), outcomes(c, False)
+                if len(alts_t) + len(alts_f) > 10:
+                    alts_t, alts_f = None, None
+                for alts, truth, body in ((alts_t, True, s.body), (alts_f, False, s.orelse)):
+                    if alts is None:
+                        x = st.fork()
+                        record(x, c, truth)
+                        yield from self.seq(list(body), x)
+                        continue
+                    for alt in alts:
+                        x = st.fork()
+                        feasible = True
+                        for atom, tv_ in alt:
+                            k = known_truth(atom, x)
+                            if k is None:
+                                x.conds.append((atom, tv_))
+                            elif k is not tv_:
+                                feasible = False
+                                break
+                        if feasible:
+                            yield from self.seq(list(body), x)
             elif tv:
                 yield from self.seq(list(s.body), st)
             else:
@@ -711,6 +743,32 @@ def known_truth(c, st):
                 return True
             return False if all(v is False for v in vals) else None
     return None
+
+
+def outcomes(c, truth):
+    """the short-circuit outcomes that give condition term c the value `truth`: a list of alternatives, each a list of
+    (atom, truth) in evaluation order"""
+    if isinstance(c, tuple) and c and c[0] == "not":
+        return outcomes(c[1], not truth)
+    if isinstance(c, tuple) and c and c[0] in ("and", "or"):
+        through = c[0] == "and"          # the value every operand but the deciding one must have
+        if truth is through:
+            out = [[]]
+            for x in c[1]:
+                out = [a + b for a in out for b in outcomes(x, truth)]
+                if len(out) > 16:
+                    break
+            return out
+        out, prefix = [], [[]]
+        for x in c[1]:
+            for a in prefix:
+                for b in outcomes(x, truth):
+                    out.append(a + b)
+            prefix = [a + b for a in prefix for b in outcomes(x, through)]
+            if len(out) > 16 or len(prefix) > 16:
+                break
+        return out
+    return [[(c, truth)]]
 
 
 def record(st, c, truth):
